@@ -2633,18 +2633,29 @@ func (ix *c04Index) ruleD8() {
 	}
 	nUses := 0
 	for _, fn := range fns {
-		if len(byFn[fn]) == 0 && uses[fn] == 0 {
-			continue
-		}
 		nUses += uses[fn]
-		construct := fnName(fn) + "+own-device-independence"
-		pos := fn.Pos()
-		fs := per[fn]
+	}
+	var unitsD8 []c04Unit
+	unitsD8 = append(unitsD8, ix.units(func(string) bool { return true }, func(f *ssa.Function) bool { return len(byFn[f]) > 0 || uses[f] > 0 })...)
+	if len(byFn[ix.Update]) > 0 || uses[ix.Update] > 0 {
+		unitsD8 = append(unitsD8, c04Unit{Root: ix.Update, Members: []*ssa.Function{ix.Update}})
+	}
+	sort.Slice(unitsD8, func(i, j int) bool { return unitsD8[i].Root.String() < unitsD8[j].Root.String() })
+	for _, u := range unitsD8 {
+		construct := fnName(u.Root) + "+own-device-independence"
+		pos := u.Root.Pos()
+		var fs []finding
+		nw, nu := 0, 0
+		for _, f := range u.Members {
+			fs = append(fs, per[f]...)
+			nw += len(byFn[f])
+			nu += uses[f]
+		}
 		if len(fs) == 0 {
-			c.ok("D8", construct, pos, "%d write(s) to index state, none depending on the own device identity (%d read(s) of the own device key)", len(byFn[fn]), uses[fn])
+			c.ok("D8", construct, pos, "%d write(s) to index state (in the function and the module functions it calls), none depending on the own device identity (%d read(s) of the own device key)", nw, nu)
 			continue
 		}
-		if exemptFn(fn) {
+		if exemptFn(u.Root) {
 			flds := map[string]bool{}
 			for _, f := range fs {
 				flds[ix.fieldName(f.wr.Field)] = true
@@ -3077,15 +3088,13 @@ func (ix *c04Index) ruleD11() {
 		return false
 	}
 	nReads := 0
+	badOf := map[*ssa.Function][]string{}
+	badPosOf := map[*ssa.Function]token.Pos{}
+	readsOf := map[*ssa.Function]int{}
 	for _, fn := range fns {
 		seeds := seedsOf(fn)
-		if len(byFn[fn]) == 0 && len(seeds) == 0 {
-			continue
-		}
+		readsOf[fn] = len(seeds)
 		nReads += len(seeds)
-		construct := fnName(fn) + "+no-cross-entry-decision"
-		var bad []string
-		var badPos token.Pos
 		for _, sd := range seeds {
 			f := fieldOfSeed(sd)
 			t := taintFrom(fn, sd)
@@ -3095,8 +3104,7 @@ func (ix *c04Index) ruleD11() {
 					continue
 				}
 				cd := c04ControlDependents(b)
-				// what does the decision control: a write to index state, a call that leads to
-				// one, or the error the handler reports
+				// what does the decision control: a write to index state or a call that leads to one
 				var what []string
 				for _, wr := range byFn[fn] {
 					if cd[wr.Instr.Block()] {
@@ -3112,14 +3120,29 @@ func (ix *c04Index) ruleD11() {
 					continue
 				}
 				sort.Strings(what)
-				if !badPos.IsValid() {
-					badPos = posOf(ifi)
+				if !badPosOf[fn].IsValid() {
+					badPosOf[fn] = posOf(ifi)
 				}
 				fname := "index state"
 				if f >= 0 {
 					fname = ix.fieldName(f)
 				}
-				bad = append(bad, fmt.Sprintf("the test at %s reads %s, which is never reset and is filled from other entries, and decides %s", c.pos(posOf(ifi)), fname, strings.Join(what, ", ")))
+				badOf[fn] = append(badOf[fn], fmt.Sprintf("in %s the test at %s reads %s, which is never reset and is filled from other entries, and decides %s", fnName(fn), c.pos(posOf(ifi)), fname, strings.Join(what, ", ")))
+			}
+		}
+	}
+	isLoop := func(ph string) bool { return ph == "loop" }
+	for _, u := range ix.units(isLoop, func(f *ssa.Function) bool { return len(byFn[f]) > 0 || readsOf[f] > 0 }) {
+		construct := fnName(u.Root) + "+no-cross-entry-decision"
+		var bad []string
+		var badPos token.Pos
+		reads, writes := 0, 0
+		for _, f := range u.Members {
+			reads += readsOf[f]
+			writes += len(byFn[f])
+			bad = append(bad, badOf[f]...)
+			if !badPos.IsValid() {
+				badPos = badPosOf[f]
 			}
 		}
 		if len(bad) > 0 {
@@ -3127,7 +3150,7 @@ func (ix *c04Index) ruleD11() {
 			c.fail("D11", construct, badPos, "a handler's treatment of an entry depends on never-reset state accumulated from other entries: %s. A live index knows that state from earlier passes; a fresh index (reopen, or the entries in one batch) scans newest first and has not met the older entries yet: the result flips with the arrival order (cross-entry conditions belong in a post-index action)", strings.Join(bad, "; "))
 			continue
 		}
-		c.ok("D11", construct, fn.Pos(), "%d read(s) of never-reset index state, used only as the idempotence guard of the subject being recorded (or not deciding any write)", len(seeds))
+		c.ok("D11", construct, u.Root.Pos(), "handler and the %d module function(s) it calls: %d write(s) to index state, %d read(s) of never-reset index state used only as the idempotence guard of the subject being recorded (or not deciding any write)", len(u.Members)-1, writes, reads)
 	}
 	c.count("reads_of_never_reset_state_in_handlers", nReads)
 }
@@ -3185,4 +3208,47 @@ func c04RuleD12(c *Ctx) {
 	if n == 0 {
 		c.undecided("D12", "Store.Load", token.NoPos, "no call of go-orbit-db's Store.Load found in the module: the open path was not recognised")
 	}
+}
+
+// ---------------------------------------------------------------------------
+// judgement units: one per function registered with the index (a handler-table entry or a
+// post-index action), judged together with the module functions it calls, so that moving
+// handler bodies into shared helpers does not change what is judged nor how many obligations
+// there are. Functions of the given phases that no registered function reaches (UpdateIndex's
+// own per-entry helper, ...) form units of their own when they have something to judge.
+
+type c04Unit struct {
+	Root    *ssa.Function
+	Members []*ssa.Function
+}
+
+func (ix *c04Index) units(inPhase func(string) bool, relevant func(*ssa.Function) bool) []c04Unit {
+	var out []c04Unit
+	covered := map[*ssa.Function]bool{}
+	for _, r := range ix.roots {
+		if r.Via == "static" || !inPhase(ix.rootOf[r.Fn]) {
+			continue
+		}
+		u := c04Unit{Root: r.Fn}
+		for f := range ix.w.reachableFuncs([]*ssa.Function{r.Fn}, 4) {
+			if ph, in := ix.phaseOf[f]; in && inPhase(ph) {
+				u.Members = append(u.Members, f)
+				covered[f] = true
+			}
+		}
+		sort.Slice(u.Members, func(i, j int) bool { return u.Members[i].String() < u.Members[j].String() })
+		out = append(out, u)
+	}
+	var rest []*ssa.Function
+	for f, ph := range ix.phaseOf {
+		if inPhase(ph) && !covered[f] && relevant(f) {
+			rest = append(rest, f)
+		}
+	}
+	sort.Slice(rest, func(i, j int) bool { return rest[i].String() < rest[j].String() })
+	for _, f := range rest {
+		out = append(out, c04Unit{Root: f, Members: []*ssa.Function{f}})
+	}
+	sort.Slice(out, func(i, j int) bool { return out[i].Root.String() < out[j].Root.String() })
+	return out
 }
